@@ -250,9 +250,8 @@ def optionalCombos (t : Template) (kind : Kind) (location : String) (base : List
     if combo.length != base.length && pos then
       let c := mkCase .positive (t.withContainer kind (.slots combo) .positive) (.requiredAndOptional opt) none (some location)
       if neg then
-        let (vals, calls') := takeCall calls
-        let r := optionalCombos t kind location base required pos neg rest calls'
-        (c :: yieldNegative t kind location vals ++ r.1, r.2)
+        let r := optionalCombos t kind location base required pos neg rest (takeCall calls).2
+        (c :: yieldNegative t kind location (takeCall calls).1 ++ r.1, r.2)
       else
         let r := optionalCombos t kind location base required pos neg rest calls
         (c :: r.1, r.2)
@@ -274,9 +273,7 @@ def comboBlock (t : Template) (location : String) (pset : List ParamIn) (pos neg
       if !required.isEmpty && all != required then
         let only := base.filter fun s => required.contains s.name
         let p := if pos then [mkCase .positive (t.withContainer kind (.slots only) .positive) .onlyRequired none (some location)] else []
-        if neg then
-          let (vals, calls') := takeCall calls
-          (p ++ yieldNegative t kind location vals, calls')
+        if neg then (p ++ yieldNegative t kind location (takeCall calls).1, (takeCall calls).2)
         else (p, calls)
       else ([], calls)
     -- 2. required + one optional
